@@ -248,9 +248,8 @@ def bulkWrite (data : Bytes) (tt : Timeout) : M (Option Nat) := fun w =>
         | _ => (.error .transportError, { w with cur := some { c' with isReset := true } })
       | none =>
         if c.writeNone then
-          let k := minOpt data.length (faultLimit false c.outOff c.faults)
-          -- a None-returning transport cannot report a short write: it takes everything up to a fault
-          (.ok none, { w with cur := some { c with peerChunks := data.take k :: c.peerChunks, outOff := c.outOff + k },
+          -- a None-returning transport cannot report a short write: it takes everything
+          (.ok none, { w with cur := some { c with peerChunks := data :: c.peerChunks, outOff := c.outOff + data.length },
                               now := w.now + c.dt })
         else
           let (fl, ofrags) : Option Nat × List Nat :=
